@@ -55,6 +55,18 @@ class Diamond(Lf[int], Rg[str]):
 @dataclasses.dataclass
 class Rename(Base2[V, T], Generic[T, V]):      # different variable names than the base
     f: V
+@dataclasses.dataclass
+class PlainOverChild(Child):                 # a plain (non-subscripted) level below the level that binds the variable
+    p: int = 0
+@dataclasses.dataclass
+class PlainOverMid(Mid[str]):
+    pass
+@dataclasses.dataclass
+class PlainOverPlain(PlainOverMid):
+    q: int = 0
+@dataclasses.dataclass
+class GenericOverPlain(PlainOverChild, Rg[U], Generic[U]):
+    pass
 @attr.s(auto_attribs=True)
 class ABase(Generic[T]):
     x: T
@@ -91,6 +103,9 @@ CASES = {
     "ConstrG_str": (ConstrG[str], {"v": "str"}),
     "Diamond": (Diamond, {"x": "int", "l": "int", "r": "str", "w": "int"}),
     "Rename_int_str": (Rename[int, str], {"a": "str", "b": "int", "f": "str"}),
+    "PlainOverChild": (PlainOverChild, {"x": "int", "y": "str", "p": "int"}),
+    "PlainOverPlain": (PlainOverPlain, {"a": "int", "b": "str", "c": "str", "q": "int"}),
+    "GenericOverPlain_str": (GenericOverPlain[str], {"x": "int", "y": "str", "p": "int", "r": "str"}),
     "AChild_int_str": (AChild[int, str], {"x": "int", "y": "str"}),
     "AChild_bare": (AChild, {"x": "any", "y": "any"}),
     "NT_int": (NT[int], {"x": "int", "y": "list_int"}),
@@ -151,7 +166,7 @@ def build(tier, seed):
     m = Module("c16_generic").pre(SETUP)
     m.ob("creation", "x: int", "return not ERR", timeout=30, family="generic hierarchies", bounds="loader and dumper creation for 25 parametrisations")
     cases = ["Child", "Child2_int", "Child2_str", "Child2_list", "Child2_bare", "Mid_str", "Mid_int", "Leaf", "Swap_int_str", "Swap_str_int", "Shadow_int",
-             "Shadow_str", "Deep_int", "BoundG_bare", "BoundG_bool", "ConstrG_bare", "ConstrG_str", "Diamond", "Rename_int_str", "AChild_int_str", "AChild_bare",
+             "Shadow_str", "Deep_int", "BoundG_bare", "BoundG_bool", "ConstrG_bare", "ConstrG_str", "Diamond", "Rename_int_str", "PlainOverChild", "PlainOverPlain", "GenericOverPlain_str", "AChild_int_str", "AChild_bare",
              "NT_int", "NT_str", "TD_int", "TDChild_str_int"]
     for c in cases:
         m.ob(f"case_{c}", "s0: int, s1: int, s2: int, s3: int, i: int, s: str", f"return generic_case({c!r}, [s0, s1, s2, s3], i, s)",
